@@ -26,9 +26,10 @@ def goFacts : GoFacts :=
     srcArgsCopied := true,
     frameInClosure := true,
     wrapperFramePerCall := true,
-    callBinGoArgsCopied := false,
-    callBinGoArg := "getBinValue(getMapType, v, f)",
-    callBinGoStmt := "go callFn(value(f), in)",
+    wrapperRecvBound := true,
+    callBinGoArgsCopied := true,
+    callBinGoArg := "copyDeferArg(getBinValue(getMapType, v, f))",
+    callBinGoStmt := "go callFn(fn, in)",
     getFuncClones := true,
     getFuncAncIsClone := true,
     getFuncStoreLocked := true,
@@ -44,12 +45,13 @@ def goFacts : GoFacts :=
     newFrameCalls := ["call: nf := newFrame(f, len(def.types), f.runid())", "genFunctionWrapper: fr := newFrame(f, len(def.types), f.runid())", "getFunc: fr2 := newFrame(fr, len(n.types), fr.runid())"] }
 
 /-- fingerprints of the functions transcribed by Model/Conc.lean (`_select`, `clauseChanDir`) and
-    Model/ConcFrames.lean (`getFunc`, `frame.clone`, `newFrame`) -/
+    Model/ConcFrames.lean (`getFunc`, `frame.clone`, `newFrame`, `copyDeferArg`: reflect.New(t).Elem() + Set) -/
 def sourceHashes : List (String × String) :=
-  [("_select", "2bbda403c6b5a323"),
-   ("clauseChanDir", "e18ff69b4ff5aab6"),
+  [("_select", "cd8dc2eaadeedc62"),
+   ("clauseChanDir", "6fe26ead01991e91"),
    ("getFunc", "e1777a5459c1a52e"),
    ("frame.clone", "ccd71f62c6588b0a"),
-   ("newFrame", "da1db819d5067f56")]
+   ("newFrame", "da1db819d5067f56"),
+   ("copyDeferArg", "d8586ba1ea695e54")]
 
 end YaegiVerif.Expected.C08
